@@ -136,10 +136,19 @@ struct OpcFeeder : Feeder {
   std::auto_ptr<ola::plugin::openpixelcontrol::OPCServer> server;
   ola::network::TCPSocket *sock;
   int peer;
-  OpcFeeder() : sock(NULL), peer(-1) {
+  // spec: "" = a callback for every channel; "@-" = none; "@0,5,255" = those channels only
+  explicit OpcFeeder(const string &spec) : sock(NULL), peer(-1) {
     server.reset(new ola::plugin::openpixelcontrol::OPCServer(g_ss, ola::network::IPV4SocketAddress()));
-    for (int ch = 0; ch < 256; ch++)
-      server->SetCallback(ch, ola::NewCallback(&on_opc, static_cast<uint8_t>(ch)));
+    if (spec.empty()) {
+      for (int ch = 0; ch < 256; ch++)
+        server->SetCallback(ch, ola::NewCallback(&on_opc, static_cast<uint8_t>(ch)));
+    } else if (spec != "@-") {
+      vector<string> chs = vh::split(spec.substr(1), ',');
+      for (size_t i = 0; i < chs.size(); i++) {
+        int ch = static_cast<int>(vh::num(chs[i])) & 255;
+        server->SetCallback(ch, ola::NewCallback(&on_opc, static_cast<uint8_t>(ch)));
+      }
+    }
     int sv[2];
     if (socketpair(AF_UNIX, SOCK_STREAM, 0, sv) != 0) abort();
     peer = sv[1];
@@ -236,7 +245,7 @@ static Feeder *make_feeder(const string &proto) {
   if (proto == "rpc") return new RpcFeeder();
   if (proto == "usbpro") return new UsbProFeeder();
   if (proto == "robe") return new RobeFeeder();
-  if (proto == "opc") return new OpcFeeder();
+  if (proto.compare(0, 3, "opc") == 0) return new OpcFeeder(proto.substr(3));
   if (proto == "acn") return new AcnFeeder();
   return NULL;
 }
@@ -310,7 +319,8 @@ static string handle(const string &p) {
   }
   // <proto> <cap> <streamhex> <part>/<part>/...
   // rpc has a fifth field (the bodies the protobuf parser rejects), used by the model only
-  if (!((a.size() == 4 && (a[0] == "usbpro" || a[0] == "robe" || a[0] == "opc" || a[0] == "acn")) ||
+  if (!((a.size() == 4 && (a[0] == "usbpro" || a[0] == "robe" || a[0] == "opc" || a[0] == "acn" ||
+                           a[0].compare(0, 4, "opc@") == 0)) ||
         (a.size() == 5 && a[0] == "rpc")))
     return "bad-op";
   size_t cap = vh::num(a[1]);
